@@ -169,21 +169,21 @@ Section WithPos.
 Hypothesis Hpos : forallb (fun p => 0 <? p) nprocsT = true.
 
 Lemma sw_PT_pos t : 0 < sw_PT t.
-Proof.
+Proof. clear d.
   unfold sw_PT. destruct (Nat.lt_ge_cases t (length nprocsT)) as [Ht|Ht].
   - rewrite forallb_forall in Hpos. specialize (Hpos (nth t nprocsT 1) (nth_In _ _ Ht)).
     apply Nat.ltb_lt in Hpos. exact Hpos.
   - rewrite nth_overflow by exact Ht. lia.
 Qed.
 Lemma sw_P_pos ax a : 0 < sw_P ax a.
-Proof. unfold sw_P. destruct (a <? length ax); [apply sw_PT_pos|lia]. Qed.
+Proof. clear d. unfold sw_P. destruct (a <? length ax); [apply sw_PT_pos|lia]. Qed.
 End WithPos.
 
 Lemma sw_nprocs_mk : nprocsT = mk (length nprocsT) sw_PT.
 Proof. symmetry. apply mk_nth. Qed.
 
 Lemma sw_cfun_valid w : w < sw_nranks -> sw_valid (sw_cfun w).
-Proof.
+Proof. clear d.
   intros Hw t. unfold sw_cfun, sw_PT.
   pose proof (unravel_inb nprocsT w Hw) as Hinb.
   destruct (Nat.lt_ge_cases t (length nprocsT)) as [Ht|Ht].
@@ -199,7 +199,7 @@ Lemma sw_rank_of_lt c : sw_valid c -> sw_rank_of c < sw_nranks.
 Proof. intros Hc. unfold sw_rank_of, sw_nranks. apply ravel_lt, sw_valid_inb, Hc. Qed.
 
 Lemma sw_cfun_rank_of c t : sw_valid c -> sw_cfun (sw_rank_of c) t = c t.
-Proof.
+Proof. clear d.
   intros Hc. unfold sw_cfun, sw_rank_of. rewrite (unravel_ravel _ _ (sw_valid_inb c Hc)).
   destruct (Nat.lt_ge_cases t (length nprocsT)) as [Ht|Ht].
   - apply rd_mk. exact Ht.
@@ -215,7 +215,7 @@ Proof.
 Qed.
 
 Lemma sw_co_lt ax c a : sw_valid c -> sw_co ax c a < sw_P ax a.
-Proof. intros Hc. unfold sw_co, sw_P. destruct (a <? length ax); [apply Hc|lia]. Qed.
+Proof. clear d. intros Hc. unfold sw_co, sw_P. destruct (a <? length ax); [apply Hc|lia]. Qed.
 
 Lemma sw_co_ext ax c c' a : (forall t, c t = c' t) -> sw_co ax c a = sw_co ax c' a.
 Proof. intros H. unfold sw_co. destruct (a <? length ax); [apply H|reflexivity]. Qed.
@@ -256,7 +256,7 @@ Qed.
 Lemma sw_axis_same_spec S D a c : sw_axis_same_b S D a = true -> sw_valid c ->
   sw_P (snd D) (sw_ipif D (sw_pif S a)) = sw_P (snd S) a /\
   sw_co (snd D) c (sw_ipif D (sw_pif S a)) = sw_co (snd S) c a.
-Proof.
+Proof. clear d.
   unfold sw_axis_same_b, sw_ipif, sw_pif. intros H Hc.
   set (a' := index_of (fst D) (nth a (fst S) 0)) in *.
   apply andb_prop in H. destruct H as [H1 H2]. apply Nat.eqb_eq in H1. split; [exact H1|].
